@@ -297,7 +297,9 @@ def random_model(rng, n_decl=(4, 30), n_rows=(0, 50), sep_style=None, date_style
     nrows = min(max(nrows, n_rows[0]), n_rows[1])
     style = date_style or rng.choice(['A', 'B', 'mixed'])
     pad = rng.random() < 0.7
-    t0 = rng.randrange(0, UTIM_MAX - 10 ** 6)
+    t0 = rng.randrange(0, UTIM_MAX - 10 ** 6) if rng.random() < 0.9 else rng.choice([0, 1, 86400])
+    # a counter / second time stamp channel: a numeric column whose cell texts also occur in the UTIM column of this file
+    mirror = rng.randrange(len(chosen)) if (chosen and rng.random() < 0.12) else None
     step = rng.choice([1, 5, 10, 60, rng.randrange(1, 5000)])
     for r in range(nrows):
         ut = t0 + r * step
@@ -310,6 +312,8 @@ def random_model(rng, n_decl=(4, 30), n_rows=(0, 50), sep_style=None, date_style
         st = style if style != 'mixed' else rng.choice(['A', 'B'])
         toks = [str(ut), date_token(d, st, pad if style != 'mixed' else rng.random() < 0.5), time_token(t)]
         toks += [random_number_token(rng) for _ in chosen]
+        if mirror is not None and nrows:
+            toks[3 + mirror] = str(t0 + rng.randrange(nrows) * step)
         lines.append(Line('row', toks, _seps(rng, len(toks) - 1, sep_style), trail=' ' if rng.random() < 0.03 else ''))
     return DatModel(lines, final_newline=rng.random() < 0.9)
 
